@@ -483,7 +483,7 @@ func checkC06(p *core.Program, r *core.Report) {
 	r.Floor("comparator scan loops", 1)
 	r.Floor("comparator flags", 2)
 	r.Floor("comparator early exits", 1)
-	r.Floor("packer call sites", 7)
+	r.Floor("packer call sites", 4)
 }
 
 // discoverPacking finds the packer (the gadget applied to the parts of the hashed sequence) and the unpacker (the gadget
